@@ -29,7 +29,7 @@ def execute(sc, keep=False):
     """Returns (results: {step id: Outcome}, failures: [str], root or None)."""
     root = execu.new_case_dir()
     try:
-        execu.write_tree(root, sc.get("files"), sc.get("dirs"), sc.get("symlinks"))
+        execu.write_tree(root, sc.get("files"), sc.get("dirs"), sc.get("symlinks"), sc.get("modes"))
         cwd0 = os.path.join(root, sc.get("cwd", DEFAULT_CWD))
         os.makedirs(cwd0, exist_ok=True)
         results = {}
